@@ -333,7 +333,7 @@ func (w SocialWrappedCallbacks) update(c context.Context, a vocab.ActivityStream
 		}
 		newT, err := streams.ToType(c, m)
 		if err != nil {
-			return err
+			return fmt.Errorf("cannot resolve the updated object: %s", err)
 		}
 		if err = w.db.Update(c, newT); err != nil {
 			return err
